@@ -187,6 +187,8 @@ for n in ((1, 2, 3, 4) if thorough else (1, 2, 3)):
                 f"        factor: [{', '.join(str(float(i + 2)) for i in range(n))}]\n        path: [{', '.join(paths)}]\n")
         sinks = [f"r{i}.txt" if i != k else "missing_dir/x.txt" for i in range(n)]
         case(f"failing-run/{k}-of-{n}", text, [], sinks, "upto", fail_at=k)
+        if k == n - 1 or thorough:
+            case(f"failing-run/{k}-of-{n}/--verbose", text, ["--verbose"], sinks, "upto", fail_at=k)
 
 import shutil
 shutil.rmtree(root, ignore_errors=True)
